@@ -9,7 +9,8 @@
 (*   Dep        resolve the next dependency (pushes a frame: recursion under the lock)     *)
 (*   Construct  call the constructor / evaluate the parameter (the fixture logs here)      *)
 (*   Store      put the instance into the cache                                            *)
-(*   Unlock     release the mutex and return to the caller frame / finish the operation    *)
+(*   Unlock     release the mutex and return to the caller frame                            *)
+(*   Return     hand the result of the outermost frame to the caller (operation finished)   *)
 (*                                                                                         *)
 (* Mutexes are not re-entrant: a dependency cycle makes a goroutine wait for itself, which *)
 (* TLC reports as a deadlock - the design-level reason why cycles must be rejected at      *)
@@ -123,18 +124,23 @@ Store(g) ==
      /\ stack' = SetTop(g, [f EXCEPT !.phase = "unlock"])
   /\ UNCHANGED <<pcs, locks, nextInst, built, evals, owner, returned>>
 
+(* the deferred Unlock runs before the result reaches the caller: releasing the mutex and returning are two steps *)
 Unlock(g) ==
   /\ Busy(g) /\ Top(g).phase = "unlock"
   /\ LET f == Top(g) IN
      /\ locks' = IF NeedsLock(f) THEN [locks EXCEPT ![f.id] = Free] ELSE locks
-     /\ stack' = Pop(g)
-     /\ IF Len(stack[g]) = 1
-        THEN /\ returned' = returned \cup {[g |-> g, i |-> pcs[g], kind |-> f.kind, id |-> f.id, inst |-> f.inst, bag |-> BagKey(g)]}
-             /\ pcs' = [pcs EXCEPT ![g] = @ + 1]
-        ELSE UNCHANGED <<returned, pcs>>
-  /\ UNCHANGED <<shared, bags, pcache, nextInst, built, evals, owner>>
+     /\ stack' = IF Len(stack[g]) = 1 THEN SetTop(g, [f EXCEPT !.phase = "return"]) ELSE Pop(g)
+  /\ UNCHANGED <<pcs, shared, bags, pcache, nextInst, built, evals, owner, returned>>
 
-CNext == \E g \in G : Begin(g) \/ Lock(g) \/ Check(g) \/ Dep(g) \/ Construct(g) \/ Store(g) \/ Unlock(g)
+Return(g) ==
+  /\ Busy(g) /\ Len(stack[g]) = 1 /\ Top(g).phase = "return"
+  /\ LET f == Top(g) IN
+     /\ returned' = returned \cup {[g |-> g, i |-> pcs[g], kind |-> f.kind, id |-> f.id, inst |-> f.inst, bag |-> BagKey(g)]}
+     /\ pcs' = [pcs EXCEPT ![g] = @ + 1]
+     /\ stack' = Pop(g)
+  /\ UNCHANGED <<locks, shared, bags, pcache, nextInst, built, evals, owner>>
+
+CNext == \E g \in G : Begin(g) \/ Lock(g) \/ Check(g) \/ Dep(g) \/ Construct(g) \/ Store(g) \/ Unlock(g) \/ Return(g)
 AllDone == \A g \in G : ~Busy(g) /\ pcs[g] > Len(Ops[g])
 CSpec == CInit /\ [][CNext]_cvars /\ WF_cvars(CNext)
 
